@@ -299,30 +299,36 @@ func suiteJob(name, suite string, emit bool) fw.TLCJob {
 func thinning(tier, src, scene, start string, legacy bool) int {
 	quick := tier == "quick"
 	if src == "genbig" {
-		if scene == "latch" {
-			return 30
+		switch scene {
+		case "latch":
+			return 60
+		case "tunnel":
+			return 25
 		}
-		return 15
+		return 30
 	}
 	switch {
 	case scene == "latch":
 		if quick {
 			return 100
 		}
-		return 8
-	case !quick:
-		return 2
+		return 16
 	case scene == "tunnel" && start == "Connecting":
 		if legacy {
 			return 2
 		}
 		return 3
 	case scene == "tunnel":
+		if !quick {
+			return 3
+		}
 		if legacy {
 			return 30
 		}
 		return 28
-	case legacy: // bridge
+	case !quick: // bridge
+		return 4
+	case legacy:
 		return 60
 	}
 	return 14
@@ -413,7 +419,7 @@ func main() {
 			var out []json.RawMessage
 			nfree := 120
 			if env.Tier == "thorough" {
-				nfree = 1200
+				nfree = 800
 			}
 			for _, c := range latchKinds {
 				for _, op := range opNames(c) {
